@@ -22,6 +22,7 @@ def run():
     it_str = [{"k": "d_str", "cls": "latin1", "cps": [97, 233, 98]}]
     it_q2 = [{"k": "d_str", "cls": "quotes2", "cps": [34, 39]}]
     o1 = '@charset "UTF-8";\na {\n  p: "aéb";\n}\n\nb {\n  q: r;\n}\n'
+    oq = 'a {\n  p: "\\"\'";\n}\n'
     o2 = '@charset "UTF-8";\na {\n  p: "aéb";\n}\nb {\n  q: r;\n}\n'
     good = [ev(0, it_str, res("ok", o1), res("ok", o1)), ev(1, it_str, res("err"), res("none")), ev(2, it_str, res("ok", o1), res("ok", o2)),
             ev(3, [{"k": "zzz", "cls": "latin1", "cps": [233]}], res("ok", o1), res("err"))]
@@ -31,9 +32,10 @@ def run():
         "line_lost": ev(2, it_str, res("ok", o1), res("ok", o2.replace("  q: r;\n", ""))),
         "reread_panic": ev(2, it_str, res("ok", o1), res("panic")),
         "dev_out_of_scope": ev(2, it_str, res("ok", o1), res("err"), devs=["css_reader_escaped_quote", "css_reader_ident_nonalnum"]),
-        "dev_not_open": ev(2, it_q2, res("ok", o1), res("err")),
+        "dev_not_open": ev(2, it_q2, res("ok", oq), res("err")),
+        "dev_trigger_absent": ev(2, it_q2, res("ok", oq.replace("\\", "")), res("err"), devs=["css_reader_escaped_quote"]),
     }
-    cases = [("good", good), ("known", good[:2] + [ev(2, it_q2, res("ok", o1), res("err"), devs=["css_reader_escaped_quote"])] + good[3:])]
+    cases = [("good", good), ("known", good[:2] + [ev(2, it_q2, res("ok", oq), res("err"), devs=["css_reader_escaped_quote"])] + good[3:])]
     cases += [(n, good[:2] + [b] + good[3:]) for n, b in bad.items()]
     def write(name, evs):
         p = os.path.join(work, name + ".ndjson")
